@@ -93,8 +93,14 @@ class _Symbolic(Exception):
 def unwrap(x):
     """twin-land value -> real numpy value; raises _Symbolic if impossible"""
     if isinstance(x, SArr):
-        if x.a.dtype == object and _has_sym(x.a):
-            raise _Symbolic()
+        if x.a.dtype == object:
+            if _has_sym(x.a):
+                raise _Symbolic()
+            if x.dt != object:
+                try:
+                    return rnp.array(x.a.tolist(), dtype=x.dt).reshape(x.a.shape)
+                except (TypeError, ValueError):
+                    pass
         return x.a
     if isinstance(x, SRec):
         return x.to_real()
